@@ -32,6 +32,27 @@ impl VM {
         Ok(())
     }
 
+    /// Validate an element count that comes from a program value *before* the host allocates
+    /// storage for it: a negative count is an invalid size, and a request that cannot fit in the
+    /// remaining heap budget is an out-of-memory error.
+    pub(crate) fn check_element_request(
+        &self,
+        count: i64,
+        elem_size: usize,
+    ) -> Result<usize, RuntimeError> {
+        if count < 0 {
+            return Err(self.runtime_error(RuntimeErrorKind::InvalidAllocationSize { size: count }));
+        }
+        let bytes = (count as u64).checked_mul(elem_size as u64).ok_or_else(|| {
+            self.runtime_error(RuntimeErrorKind::OutOfMemory {
+                requested: u64::MAX,
+                max: self.config.max_heap_bytes,
+            })
+        })?;
+        self.ensure_heap_capacity(bytes)?;
+        Ok(count as usize)
+    }
+
     pub fn alloc_object(&mut self, object: GcObject) -> Result<GcRef, RuntimeError> {
         let size = Heap::estimate_object_size(&object) as u64;
         self.ensure_heap_capacity(size)?;
